@@ -304,3 +304,10 @@ def histogram(part, c):
 
 
 PARTS = [Part("history", "c20", "infraction", gen, nontrivial=nontrivial, describe=describe)]
+
+# ---- composed model (Model/SlashParams.v = Infraction x Slash): theorems in Props/C20System.v, part "system" in harness/c20sys/part.py
+EXTRA_PROPS = ["C20System"]
+import importlib.util as _ilu, os as _os
+_spec = _ilu.spec_from_file_location("c20sys_part", _os.path.join(_os.path.dirname(_os.path.abspath(__file__)), "..", "..", "harness", "c20sys", "part.py"))
+_c20sys = _ilu.module_from_spec(_spec); _spec.loader.exec_module(_c20sys)
+PARTS.append(_c20sys.PART)
